@@ -28,6 +28,24 @@ theorem flatMap_skip {α β : Type} (p : α → Prop) [DecidablePred p] (f : α 
   | nil => rfl
   | cons a l ih => by_cases h : p a <;> simp [List.flatMap_cons, h, ih]
 
+theorem flatMap_skip' {α β : Type} (p : α → Prop) [DecidablePred p] (g : α → List β) (l : List α) :
+    (l.flatMap fun e => if p e then [] else g e) = (l.filter fun e => ¬ p e).flatMap g := by
+  induction l with
+  | nil => rfl
+  | cons a l ih => by_cases h : p a <;> simp [List.flatMap_cons, h, ih]
+
+theorem flatMap_keep {α β : Type} (p : α → Prop) [DecidablePred p] (f : α → β) (l : List α) :
+    (l.flatMap fun e => if p e then [f e] else []) = (l.filter fun e => p e).map f := by
+  induction l with
+  | nil => rfl
+  | cons a l ih => by_cases h : p a <;> simp [List.flatMap_cons, h, ih]
+
+theorem flatMap_ite_single {α β : Type} (p : α → Prop) [DecidablePred p] (f g : α → β) (l : List α) :
+    (l.flatMap fun e => if p e then [f e] else [g e]) = l.map fun e => if p e then f e else g e := by
+  induction l with
+  | nil => rfl
+  | cons a l ih => by_cases h : p a <;> simp [List.flatMap_cons, h, ih]
+
 @[simp] theorem arc_eta {ι σ K : Type} (e : Arc ι σ K) : (⟨e.src, e.lbl, e.dst, e.w⟩ : Arc ι σ K) = e := rfl
 @[simp] theorem tarc_eta {ι σ K : Type} (e : TArc ι σ K) : (⟨e.src, e.inp, e.out, e.dst, e.w⟩ : TArc ι σ K) = e := rfl
 @[simp] theorem rule_eta {σ K : Type} (r : Rule σ K) : (⟨r.w, r.head, r.body⟩ : Rule σ K) = r := rfl
